@@ -117,6 +117,54 @@ def _rename(node, names, suffix, id_off, did_off):
         n.pop("_fx", None)
 
 
+def _pure_path(a):
+    """a constant, or an access path (variable, member, address-of / dereference of such, constant index) without effects"""
+    a0 = _strip_casts(a)
+    if not isinstance(a0, dict):
+        return False
+    if const(a0) is not None and a0.get("k") in ("int", "cast", "un", "ref"):
+        return True
+    k = a0.get("k")
+    if k == "ref":
+        return a0.get("dk") in ("local", "parm", "slocal", "global")
+    if k == "member":
+        return _pure_path(a0.get("base"))
+    if k == "un" and a0.get("op") in ("&", "*"):
+        return _pure_path(a0.get("e"))
+    if k == "index":
+        return _pure_path(a0.get("base")) and const(a0.get("idx")) is not None
+    return False
+
+
+def _subst(node, name, repl, nid):
+    """replace every reference to local `name` in the tree by a fresh copy of `repl`"""
+    if not isinstance(node, dict):
+        return node
+    if node.get("k") == "ref" and node.get("name") == name:
+        c = copy.deepcopy(repl)
+        for x in walk(c):
+            if "id" in x:
+                x["id"] = nid()
+            x.pop("_p", None)
+        if "id" in node:
+            c["id"] = node["id"]        # a terminator may refer to this node as its condition
+        if node.get("ext"):
+            c["ext"] = True
+        return c
+    for kk in _KID_KEYS:
+        if isinstance(node.get(kk), dict):
+            node[kk] = _subst(node[kk], name, repl, nid)
+    for kk in _KID_LISTS:
+        if isinstance(node.get(kk), list):
+            node[kk] = [_subst(x, name, repl, nid) for x in node[kk]]
+    if node.get("k") == "decl":
+        for v in node.get("vars", []):
+            if isinstance(v.get("init"), dict):
+                v["init"] = _subst(v["init"], name, repl, nid)
+    node.pop("_p", None)
+    return node
+
+
 def _max_ids(fn):
     mid, mdid = 0, 0
     for n in _all_nodes(fn):
@@ -262,8 +310,21 @@ def _inline_one(caller, helper, n_inst):
             binds = []
             consts = {}
             assigned = _assigned_names(helper)
+            substituted = set()
             for p, a in zip(hcopy.get("params", []), call.get("args", [])):
                 pn = p["name"] + suffix
+                # a parameter the helper never assigns, bound to a side-effect-free access path of the caller, is replaced by
+                # that path: `init(temp)` inlines to stores into `temp->f`, not into an alias of temp
+                if p["name"] not in assigned and _pure_path(a):
+                    for hb in hblocks:
+                        hb["roots"] = [_subst(r, pn, a, nid) for r in hb.get("roots", [])]
+                        t = hb.get("term")
+                        if t and isinstance(t.get("full"), dict):
+                            t["full"] = _subst(t["full"], pn, a, nid)
+                    substituted.add(pn)
+                    if const(a) is not None:
+                        consts[pn] = const(a)
+                    continue
                 binds.append({"k": "asg", "op": "=", "id": nid(), "l": line, "f": call.get("f"), "t": p.get("t"), "inl": hname,
                               "lhs": {"k": "ref", "dk": "local", "name": pn, "id": nid(), "l": line, "f": call.get("f"), "t": p.get("t")},
                               "rhs": a})
@@ -313,14 +374,53 @@ def _inline_one(caller, helper, n_inst):
             # ---- locals
             caller.setdefault("locals", [])
             for p in hcopy.get("params", []):
-                caller["locals"].append({"name": p["name"] + suffix, "t": p.get("t")})
+                if p["name"] + suffix not in substituted:
+                    caller["locals"].append({"name": p["name"] + suffix, "t": p.get("t")})
             for l in hcopy.get("locals", []):
                 caller["locals"].append(dict(l, name=l["name"] + suffix))
             if not void:
                 caller["locals"].append({"name": retvar, "t": hcopy.get("ret")})
             _drop_unreachable(caller)
+            caller["_inlined"] = True
             return True
     return False
+
+
+def _renumber(fn):
+    """Give the blocks post-order numbers again (clang's convention: the entry has the highest number, numbers fall along
+    forward edges), so that analyses which read program order off the block numbers keep working after an inlining."""
+    cfg = fn["cfg"]
+    by = {b["id"]: b for b in cfg["blocks"]}
+    order, seen = [], set()
+    st = [(cfg["entry"], iter([x for x in by[cfg["entry"]].get("succs", []) if x is not None]))]
+    seen.add(cfg["entry"])
+    while st:
+        node, it = st[-1]
+        adv = False
+        for s_ in it:
+            if s_ not in seen and s_ in by:
+                seen.add(s_)
+                st.append((s_, iter([x for x in by[s_].get("succs", []) if x is not None])))
+                adv = True
+                break
+        if not adv:
+            order.append(node)
+            st.pop()
+    if cfg["exit"] not in seen:
+        order.insert(0, cfg["exit"])
+    else:
+        order.remove(cfg["exit"])
+        order.insert(0, cfg["exit"])
+    newid = {old: k for k, old in enumerate(order)}
+    blocks = []
+    for old in order:
+        b = by[old]
+        b["id"] = newid[old]
+        b["succs"] = [None if x is None or x not in newid else newid[x] for x in b.get("succs", [])]
+        blocks.append(b)
+    cfg["blocks"] = sorted(blocks, key=lambda b: b["id"])
+    cfg["entry"] = newid[cfg["entry"]]
+    cfg["exit"] = newid[cfg["exit"]]
 
 
 def _drop_unreachable(fn):
@@ -368,6 +468,10 @@ def apply(units, known=None):
                     inst += 1
                     guard += 1
             counts[h["name"]] = inst
+        for caller in fns:
+            if caller.get("cfg") and caller.get("_inlined"):
+                _renumber(caller)
+                caller.pop("_inlined", None)
         # drop helpers nobody refers to any more
         for h in order:
             used = False
